@@ -47,6 +47,7 @@ def gen_crash(rng, sid, pid):
     sc['family'] = 'crash'
     for o in sc['ops']:
         o.pop('twice', None)
+        o.pop('comp', None)      # (the child process and the snapshot scanner identify values by their stored bytes)
     return sc
 
 
